@@ -124,6 +124,18 @@ def run(ctx):
         cases.append({'op': 'mc', 'logic': rnd.choice(['CTL', 'CTL', 'CTLS']), 'K': K, 'F': F, 'f': f, 'family': 'nested on core+tail K'})
         if rnd.random() < 0.35:
             cases.append({'op': 'fs', 'K': K, 'F': F, 'naming': rnd.choice(['int', 'str', 'tuple', 'obj']), 'shuf': rnd.randrange(1 << 30)})
+    # several fair-SCC candidates in one structure, constraints that separate them (met by one core, missed by another),
+    # in every order of presentation
+    for _ in range(700 if q else 12000):
+        K, cores = gen.multi_core_kripke(rnd)
+        picks = [rnd.choice(c) for c in cores]
+        F = rnd.choice([[cores[0]], [cores[-1]], [[picks[0]], [picks[0]]], [[picks[-1]]], [[picks[0], picks[-1]]], [[picks[0]], [picks[-1]]],
+                        [cores[0], [picks[0], picks[-1]]], [[]], [list(range(K['n']))], [cores[-1], list(range(K['n']))],
+                        [[picks[0], picks[-1]], cores[0] + cores[-1]], [[picks[-1]], [picks[0], picks[-1]], cores[-1]]])
+        cases.append({'op': 'fs', 'K': K, 'F': F, 'naming': rnd.choice(['int', 'str', 'tuple', 'obj']), 'shuf': rnd.randrange(1 << 30), 'family': 'several cores'})
+        f = rnd.choice([TR, P, ('E', ('F', P)), ('A', ('X', P)), ('E', ('X', Q)), ('E', ('U', P, Q)), ('not', P), ('A', ('G', ('or', P, Q)))])
+        cases.append({'op': 'mc', 'logic': rnd.choice(['CTL', 'CTL', 'CTLS']), 'K': K, 'F': F, 'f': f, 'naming': rnd.choice(['int', 'str']),
+                      'shuf': rnd.randrange(1 << 30), 'family': 'several cores'})
     # seeded random beyond the scope
     for _ in range(600 if q else 20000):
         K = gen.rand_kripke(rnd, rnd.choice([3, 4, 4]))
